@@ -359,7 +359,10 @@ func genCase(r *vh.Rand, mode string, shared bool, maxOps int) *Case {
 	}
 	nsub := 1 + r.Pick(2, 5, 1)
 	for i := 0; i < nsub; i++ {
-		cs.Subs = append(cs.Subs, genSub(r, true))
+		// mode S: the paths of one subscriber select disjoint leaves -- a leaf selected twice by
+		// one walk is inserted twice, and a sender woken by the first insertion races the second
+		// (there is no schedule point inside the walk); mode A covers overlapping paths
+		cs.Subs = append(cs.Subs, genSub(r, mode == "A"))
 	}
 	return cs
 }
